@@ -912,7 +912,7 @@ EXPORT errno_t _wcsnorm_compose_s_chk(wchar_t *restrict dest, rsize_t dmax,
 #endif
 {
     wchar_t *p = (wchar_t *)src;
-    const wchar_t *e = p + *lenp;
+    const wchar_t *e;
     uint32_t cpS = 0;       /* starter code point */
     bool valid_cpS = false; /* if false, cpS isn't initialized yet */
     uint8_t pre_cc = 0;
@@ -940,6 +940,7 @@ EXPORT errno_t _wcsnorm_compose_s_chk(wchar_t *restrict dest, rsize_t dmax,
                       "wcsnorm_compose_s: lenp is null", ESNULLP);
         return RCNEGATE(ESNULLP);
     }
+    e = p + *lenp;
     if (destbos == BOS_UNKNOWN) {
         if (unlikely(dmax > RSIZE_MAX_WSTR)) {
             *lenp = 0;
